@@ -11,21 +11,23 @@ with numpy:
 
 Don't-care zone (DESIGN.md C19): Java's tables are the binary doubles, C's went through '%.10E' (5e-11 relative), so a continuous
 argument within 1e-9 of a table end / edge may legitimately take the other branch on one side only.  Every disagreeing tuple is
-therefore re-run on both sides with each double argument x moved to x(1+1e-8) and x(1-1e-8).  An error/no-error disagreement
-is a boundary tuple if for some argument both sides report an error at one neighbour and both return a value at the other (each
-side shows both behaviours within the neighbourhood); a value disagreement is a boundary tuple if for some argument the two
-sides agree (same primary tolerance) at BOTH neighbours, i.e. the disagreement is confined to an interval narrower than 2e-8
-between two points of agreement.  Boundary tuples are counted in boundary_tuples instead of being reported.  A systematic difference (dropped term, shifted range check on an integer
-argument, wrong constant) disagrees at the neighbours too and is never classified as boundary; arguments 0 and +-DBL_MAX have
-no neighbourhood and are always reported.  Everything else is re-checked by a
-single-call replay on both sides (fresh request of one tuple) and reported.
+therefore re-run on both sides with each double argument x moved to x(1+1e-8) and x(1-1e-8).
+  * An error/no-error disagreement is a boundary tuple if for some argument both sides report an error at one neighbour and
+    both return a value at the other (each side shows both behaviours within the neighbourhood).
+  * A value disagreement is a boundary tuple if for some argument the two sides agree (primary tolerance) at BOTH neighbours,
+    i.e. the disagreement is confined to an interval narrower than 2e-8 between two points of agreement (an edge that one
+    side has already crossed).
+Boundary tuples are counted in notes.boundary_tuples instead of being reported.  A systematic difference (dropped term, shifted
+range check on an integer argument, wrong constant) disagrees at the neighbours too and is never classified as boundary;
+arguments 0 and +-DBL_MAX have no neighbourhood and are always reported.  Every remaining disagreement is re-checked by a
+single-call replay on both sides (a fresh request of that one tuple) and reported under the key
+<cfg>|<method>|<c03.arg_class>|<c-error-java-value | java-exception-c-value | value-differs | object-differs>.
 
 Error messages: the predefined message constants of java/Xraylib.java equal those of src/xraylib-error-private.h, but formatted
 messages differ in wording (e.g. "is not present in array" / "is not present in the array") and the property only speaks about
 *whether* an exception is thrown, so messages are compared for information only (notes.message_mismatch), never as a violation.
 """
-import json, math, os, sys, threading, time, zlib
-from concurrent.futures import ThreadPoolExecutor
+import json, os, sys, threading, time, zlib
 import numpy as np
 import common, build, xrl, jxrl, refdata, protos, domains, c03
 from xrl import F_ERR, F_NULLOBJ
@@ -83,8 +85,7 @@ def subplan(p, idx):
             cols.append(c[idx])
         else:
             cols.append([c[i] for i in idx])
-    q = c03.Plan(p.name, p.kind, p.sig, cols, op=p.op)
-    return q
+    return c03.Plan(p.name, p.kind, p.sig, cols, op=p.op)
 
 
 def with_cols(p, cols):
@@ -554,7 +555,6 @@ def run(ctx, B, level):
             s.J.warm()
         t0 = time.time()
         plans = c03.build_plans(B, cfg, level, ctx.seed) + aux_plans(B, cfg, level, ctx.seed)
-        plans = [p for p in plans if not (p.kind == "op" and p.op in ("Refractive_Index2", "SF2", "SFP2") and False)]
         plans += string_plans(sides[0].X, level)
         jm = sides[0].J.methods()
         jm_all |= set(jm)
@@ -598,10 +598,12 @@ def run(ctx, B, level):
                     errs.append((p.name, ex, traceback.format_exc()))
                     return
         ths = [threading.Thread(target=worker, args=(s,)) for s in sides]
-        for t in ths: t.start()
-        for t in ths: t.join()
-        for s in sides:
-            s.close()
+        try:
+            for t in ths: t.start()
+            for t in ths: t.join()
+        finally:
+            for s in sides:
+                s.close()
         if errs:
             raise common.Infra("comparison of %s failed: %s\n%s" % (errs[0][0], errs[0][1], errs[0][2]))
         ctx.log("cfg %s done: %d tuples so far, %d disagreements, %d boundary" % (cfg, stats["tuples"], stats["disagreements"], stats["boundary"]))
